@@ -69,7 +69,7 @@
         (end (if (and (pair? o) (pair? (cdr o)))
                  (->cursor str (cadr o))
                  (string-cursor-end str))))
-    (let lp ((i (if (pair? o) (car o) (string-cursor-start str))))
+    (let lp ((i (if (pair? o) (->cursor str (car o)) (string-cursor-start str))))
       (cond ((string-cursor>=? i end) end)
             ((pred (string-cursor-ref str i)) i)
             (else (lp (string-cursor-next str i)))))))
